@@ -668,7 +668,9 @@ class Scripts:
 
     def fsk_tx(self, n, maxlen_fixed=2047):
         """C04: frames of every length; the simulated modulator consumes bytes between and
-        inside handler invocations, never running the FIFO dry before the frame is complete"""
+        inside handler invocations, never running the FIFO dry before the frame is complete.
+        The application either stays in TX, leaves TX from the callback, or queues the next
+        packet from the callback."""
         r = self.rnd
         for _ in range(n):
             mod = r.choice([FSK, OOK])
@@ -680,66 +682,82 @@ class Scripts:
             else:
                 self.emit('fsk_ook_set_packet_format 0 %d' % r.randint(1, 2047))
             self.emit('set_opmod 1 %d' % mod)
-            leave = r.random() < 0.7
-            if leave:
-                self.emit('oncb tx set_opmod 1 %d' % mod)
             for _ in range(r.randint(1, 3)):
-                with_addr = r.random() < 0.4
-                mx = (255 if variable else maxlen_fixed) - (1 if with_addr else 0)
-                plen = r.choice([0, 1, 2, 30, 31, 32, 61, 62, 63, 64, 65, 66, 93, 94, 95, 96, 127, 128, 254, mx, r.randint(0, mx), r.randint(0, min(mx, 300))])
-                plen = min(plen, mx)
-                payload = [r.randint(0, 255) for _ in range(plen)]
-                hexp = ''.join('%02x' % b for b in payload) or '-'
-                frame = self.fsk_frame(variable, 0x22 if with_addr else None, payload)
-                self.emit('env flag2 0')   # no-op separator
+                behaviour = r.choice(['leave', 'leave', 'stay', 'chain', 'chain'])
+                frames = []
+                calls = []
+                for k in range(2 if behaviour == 'chain' else 1):
+                    with_addr = r.random() < 0.4
+                    mx = (255 if variable else maxlen_fixed) - (1 if with_addr else 0)
+                    plen = r.choice([0, 1, 2, 30, 31, 32, 61, 62, 63, 64, 65, 66, 93, 94, 95, 96, 127, 128, 254, mx, r.randint(0, mx), r.randint(0, min(mx, 300))])
+                    plen = min(plen, mx)
+                    payload = [r.randint(0, 255) for _ in range(plen)]
+                    hexp = ''.join('%02x' % b for b in payload) or '-'
+                    frames.append(self.fsk_frame(variable, 0x22 if with_addr else None, payload))
+                    if with_addr:
+                        calls.append('fsk_ook_tx_set_for_transmission_with_address %s 0x22' % hexp)
+                    else:
+                        calls.append('fsk_ook_tx_set_for_transmission %s' % hexp)
                 self.emit('write_register 0x3f 0x10')  # flush
                 self.emit('set_opmod 3 %d' % mod)
-                self.emit('#= fsktx_begin %s' % (''.join('%02x' % b for b in frame) or '-'))
-                if with_addr:
-                    self.emit('fsk_ook_tx_set_for_transmission_with_address %s 0x22' % hexp)
+                if behaviour == 'leave':
+                    self.emit('oncb tx set_opmod 1 %d' % mod)
+                elif behaviour == 'stay':
+                    self.emit('oncb tx -')
                 else:
-                    self.emit('fsk_ook_tx_set_for_transmission %s' % hexp)
-                # modulator consumes between and inside invocations, never running the FIFO dry
-                # before the frame is complete; a reference model of the refill keeps it admissible
-                total = len(frame)
-                occ = min(total, 64)
-                written = occ
-                while True:
-                    maxtake = occ - 1 if written < total else occ
-                    take = max(0, min(maxtake, r.choice([0, 1, 5, 20, 31, 32, 33, 40, 63, r.randint(0, 64)])))
-                    for _ in range(take):
-                        self.emit('env txshift')
-                    occ -= take
-                    done = written >= total and occ == 0
-                    if done:
-                        if r.random() < 0.5:
-                            self.emit('env txsent')
-                        self.emit('irq')
-                        break
-                    k = 0
-                    inh = ''
-                    room = occ - 1 if written < total else occ
-                    if room > 0 and r.random() < 0.4:
-                        k = r.randint(1, min(2, room))
-                        for ix in sorted(r.randint(1, 4) for _ in range(k)):
-                            inh += ' @%d txshift' % ix
-                    self.emit('irq' + inh)
-                    if occ <= 31 and written < total:
-                        w = min(30, total - written)
-                        occ += w
-                        written += w
-                    occ -= k
-                    if r.random() < 0.1 and not (written >= total and occ == 0):
-                        self.emit('irq')
-                        if occ <= 31 and written < total:
-                            w = min(30, total - written)
-                            occ += w
-                            written += w
-                self.emit('env chip f 0x3f 0')   # PacketSent is cleared when the chip leaves TX
-                self.emit('#= fsktx_end %d' % (1 if leave else 0))
+                    self.emit('oncb tx ' + calls[1])
+                self.emit('#= fsktx_begin')
+                self.emit(calls[0])
+                self.tx_schedule(len(frames[0]))
+                self.emit('env chip f 0x3f 0')   # PacketSent is cleared when the chip leaves / restarts TX
+                if behaviour == 'chain':
+                    self.emit('oncb tx set_opmod 1 %d' % mod)
+                    self.tx_schedule(len(frames[1]))
+                    self.emit('env chip f 0x3f 0')
+                self.emit('#= fsktx_end %d %s' % (0 if behaviour == 'stay' else 1,
+                          ' '.join((''.join('%02x' % b for b in f) or '-') for f in frames)))
                 self.emit('dump')
-                if not leave:
+                if behaviour == 'stay':
                     self.emit('set_opmod 1 %d' % mod)
+
+    def tx_schedule(self, total):
+        """consumption by the modulator and handler invocations until the frame of `total`
+        bytes (already queued: the first min(64,total) bytes are in the FIFO) has left the chip;
+        a reference model of the refill keeps the schedule admissible"""
+        r = self.rnd
+        occ = min(total, 64)
+        written = occ
+        while True:
+            maxtake = occ - 1 if written < total else occ
+            take = max(0, min(maxtake, r.choice([0, 1, 5, 20, 31, 32, 33, 40, 63, r.randint(0, 64)])))
+            for _ in range(take):
+                self.emit('env txshift')
+            occ -= take
+            done = written >= total and occ == 0
+            if done:
+                if r.random() < 0.5:
+                    self.emit('env txsent')
+                self.emit('irq')
+                return
+            k = 0
+            inh = ''
+            room = occ - 1 if written < total else occ
+            if room > 0 and r.random() < 0.4:
+                k = r.randint(1, min(2, room))
+                for ix in sorted(r.randint(1, 4) for _ in range(k)):
+                    inh += ' @%d txshift' % ix
+            self.emit('irq' + inh)
+            if occ <= 31 and written < total:
+                w = min(30, total - written)
+                occ += w
+                written += w
+            occ -= k
+            if r.random() < 0.1 and not (written >= total and occ == 0):
+                self.emit('irq')
+                if occ <= 31 and written < total:
+                    w = min(30, total - written)
+                    occ += w
+                    written += w
 
     def floats(self, n):
         """C12: numeric setters / getters on step boundaries and random values"""
